@@ -34,6 +34,11 @@ fingerprinted.
 Extension stream (harness/props_ext/c11_ufunc.py): a GRID of in-place ufunc / reduction scenarios walked completely in
 every run: how x was built (8 ways) x kind of `where=` (8, incl. none) x order of the computes after the call / scheduler
 (6); see that module.
+Extension stream (harness/props_ext/c11_setitem.py): a GRID of `x[key] = value` scenarios walked completely in every run:
+key kind (8: slice, int, list, NumPy mask, dask mask full-shape / computed from x / along an axis, dask integer array) x value
+kind (7: Python scalar, NumPy scalar, NumPy array, 0-d dask, LAZY dask reduction, dask array, derived from x itself) x dtype of
+the value relative to x.dtype (same / safe / same-kind / other-kind): x keeps its dtype, the value is cast like NumPy casts it.
+Histories also assign lazy 0-d reductions of pool members (`x[mask] = y.mean()`: float64 into int64).
 """
 from __future__ import annotations
 
@@ -319,7 +324,8 @@ def rand_key(rng, shape):
         fancy_axis = rng.randrange(nd)
     for ax, d in enumerate(shape):
         if ax == fancy_axis:
-            # dask-array keys (integer or 1-d boolean) are a known failing class (probe_known): accepted, then x cannot be computed
+            # dask-array keys (integer or 1-d boolean) are explored by the setitem-scenario grid (harness/props_ext/c11_setitem.py), which
+            # keeps the registered failing sub-classes out (c11_setitem.avoid_known); histories use lists and NumPy masks
             kind = rng.choice(["l", "b"])
             if kind in ("l", "dint"):
                 m = rng.randint(1, d)
@@ -432,6 +438,9 @@ class Sim:
                 return np.array(v["np"], dtype=np.int64)
             if "ma" in v:
                 return np.ma.array(np.array(v["ma"], dtype=np.int64), mask=np.array(v["mask"], dtype=bool))
+            if "red" in v:
+                # a LAZY 0-d reduction of a pool member (mean: float64 into the int64 x; NumPy casts the value to x.dtype)
+                return np.asarray(getattr(self.np[v["red"]], v["fn"])())
             ref = self.np[v["ref"]]
             return np.array(ref[P._dec_index(v["index"])], copy=True)
         return v
@@ -579,6 +588,9 @@ def gen_history(rng, length):
                     continue
                 st["mask"] = {"ref": rng.choice(cands), "cmp": rng.choice([">", "%"]), "c": rng.randint(1, 6)}
                 st["value"] = rng.randint(-99, 99)
+                reds = [n for n in names if n not in sim.unknown and n not in sim.masked and sim.np[n].size]
+                if reds and rng.random() < 0.4:
+                    st["value"] = {"red": rng.choice(reds), "fn": rng.choice(["mean", "mean", "max", "sum"])}
                 if st["mask"]["ref"] in tainted:
                     taint(x)
             else:
@@ -594,6 +606,9 @@ def gen_history(rng, length):
                 vq = rng.random()
                 if vq < 0.35 or target.ndim == 0:
                     st["value"] = rng.randint(-99, 99)
+                    reds = [n for n in names if n not in sim.unknown and n not in sim.masked and sim.np[n].size]
+                    if reds and rng.random() < 0.25:
+                        st["value"] = {"red": rng.choice(reds), "fn": rng.choice(["mean", "mean", "max", "sum"])}
                 elif vq < 0.7:
                     # broadcastable NumPy value: trailing dims, some of size 1
                     shp = list(target.shape)[rng.randint(0, target.ndim - 1):] if not fancy else list(target.shape)
@@ -781,7 +796,7 @@ def run_history(steps, optimize, eager, stop_at=None, mode=None):
                 return {"step": i, "what": "compute-raises", "name": n, "error": repr(e)[:300]}
             want = sim.np[n]
             if not same_arr(got, want):
-                return {"step": i, "what": "value", "name": n, "got": listed(got), "want": listed(want)}
+                return {"step": i, "what": "value", "name": n, "got": listed(got), "want": listed(want), "got_dtype": str(got.dtype), "want_dtype": str(want.dtype)}
             if n in touched:
                 # keys handed out earlier were cached on the collection: after an update they must be the keys of the NEW graph
                 x = env[n]
@@ -856,6 +871,8 @@ def run_history(steps, optimize, eager, stop_at=None, mode=None):
                             val = np.array(v["np"], dtype=np.int64)
                         elif "ma" in v:
                             val = np.ma.array(np.array(v["ma"], dtype=np.int64), mask=np.array(v["mask"], dtype=bool))
+                        elif "red" in v:
+                            val = getattr(env[v["red"]], v["fn"])()
                         else:
                             val = env[v["ref"]][P._dec_index(v["index"])]
                     else:
@@ -1031,6 +1048,8 @@ def shrink_history(steps, optimize, eager, sig, mode=None):
                     v = st["value"]
                     if isinstance(v, dict) and "ref" in v and v["ref"] in unk:
                         return False
+                    if isinstance(v, dict) and "red" in v and v["red"] in unk:
+                        return False
                     if "mask" in st:
                         ref = st["mask"]["ref"]
                         if (st["x"] in unk and ref != st["x"]) or (st["x"] not in unk and ref in unk):
@@ -1160,7 +1179,8 @@ def probe_known(ctx):
         ctx.fail("setitem:multi-chunk-dask-value:compute-raises",
                  {"program": "x = da.from_array(np.arange(4), chunks=4); x[:] = da.from_array(np.arange(4)*10, chunks=2); x.compute()", "error": repr(e)[:200]},
                  "x[key] = dask value whose part for one block spans several chunks is accepted and then x cannot be computed")
-    # (3) dask integer-array key under optimisation
+    # (3) regression probe (fixed in repo de6ba02): a dask integer-array key under optimisation raised AttributeError
+    #     ('ArrayOffsetDep' object has no attribute 'shape'); the setitem-scenario grid generates dask integer keys too
     try:
         y = da.from_array(np.arange(18).reshape(3, 6), chunks=(2, 5))
         y[:, da.from_array(np.array([5, 2]), chunks=2)] = np.arange(6).reshape(3, 2)
@@ -1247,7 +1267,7 @@ def search(ctx):
             if s["op"] == "setitem":
                 kinds = tuple(key_kinds(s["key"])) if "key" in s else ("dask-mask",)
                 v = s["value"]
-                vk = "scalar" if not isinstance(v, dict) else ("np" if "np" in v else ("masked" if "ma" in v else ("self" if v["ref"] == s["x"] else "dask")))
+                vk = "scalar" if not isinstance(v, dict) else ("np" if "np" in v else ("masked" if "ma" in v else ("lazy-" + v["fn"] if "red" in v else ("self" if v["ref"] == s["x"] else "dask"))))
                 ctx.count(("setitem", kinds, vk, optimize))
             elif s["op"] == "out":
                 w = s.get("where")
@@ -1315,11 +1335,17 @@ def run(ctx, replay=None):
         "+ seeded random n-d slice/int keys; search: seeded random histories (length <= 8 quick / 30 thorough) over pools of <= ~8 collections; "
         "an operation instance is distinct by (op, key kinds per axis, value kind, optimised) resp. (op, optimised, eager verification) resp. "
         "(out=, unary/binary, where kind, optimised, verification order, scheduler); in-place ufunc scenarios: the complete grid "
-        "(how x was built) x (where kind) x (compute order, scheduler), other dimensions seeded random; distinct by (cell, call kind, out= form, optimised)"
+        "(how x was built) x (where kind) x (compute order, scheduler), other dimensions seeded random; distinct by (cell, call kind, out= form, optimised); "
+        "setitem scenarios: the complete grid (key kind) x (value kind) x (value dtype relative to x.dtype), other dimensions seeded random; "
+        "distinct by (cell, x.dtype, value dtype)"
     )
     ctx.assumptions = [
-        "all data int64 (exact); integer-list keys without repeated indices (NumPy's write order for repeats is not a contract)",
-        "dask boolean-mask keys (x[mask] = v) with scalar values only (`where` semantics differ from NumPy's sequential fill for array values)",
+        "histories: all data int64 (exact; lazy `mean` values are float64 and are cast into x by the assignment); other dtypes: the setitem-scenario grid; integer-list keys without repeated indices (NumPy's write order for repeats is not a contract)",
+        "dask boolean-mask keys (x[mask] = v) with 0-d values only (Python / NumPy scalars, 0-d dask arrays, lazy reductions); 1-d values of the selected count are refused by dask; "
+        "length-1 1-d values are a reported class (probe)",
+        "setitem scenarios: no value whose C cast to x.dtype is undefined (NaN / inf / out-of-range float -> int, negative float -> unsigned); float data are multiples of 1/4 wherever "
+        "arithmetic is involved (sums / means over 2^k elements are exact), arbitrary where the value is only cast; three classes that fail on the unchanged tree are kept out of the grid "
+        "and reported by probes (c11_setitem.avoid_known)",
         "a fancy key (list / bool / dask array) is combined with slices only (NumPy moves advanced dimensions when separated by a slice)",
         "MaskedArray values: the oracle is numpy.ma's assignment (x becomes a masked array, as dask documents), not ndarray.__setitem__ (which drops the mask)",
         "list / boolean / dask-array keys are not modelled in Lean (search only); the store theorems assume materialize/eval sound (C01/C02)",
@@ -1334,10 +1360,14 @@ def run(ctx, replay=None):
         elif case.get("ufunc_scenario"):
             from harness.props_ext import c11_ufunc
             c11_ufunc.check_case(ctx, {k: v for k, v in case.items() if k != "failure"}, do_shrink=False)
+        elif case.get("setitem_scenario"):
+            from harness.props_ext import c11_setitem
+            c11_setitem.check_case(ctx, {k: v for k, v in case.items() if k != "failure"}, do_shrink=False)
         else:
-            from harness.props_ext import c11_ufunc
+            from harness.props_ext import c11_setitem, c11_ufunc
             probe_known(ctx)
             c11_ufunc.probes(ctx)
+            c11_setitem.probes(ctx)
             ctx.correspond("parse_assignment_indices", parse_pairs(ctx, NEX, NR))
             ctx.correspond("setitem_array_expr plan", plan_pairs(ctx, min(NEX, 4), NR // 4))
             if ctx.disagreements:
@@ -1350,8 +1380,11 @@ def run(ctx, replay=None):
     ctx.extra["exhaustive_domain"] = (f"parse_assignment_indices: all 1-d slices with bounds in [-n-2,n+2]∪{{None}} × 7 steps, n ≤ {NEX}; "
                                       f"setitem plan: all chunkings of n ≤ {min(NEX, ctx.scale(4, 5))} × those slices × value kinds (0-d, length 1, full) "
                                       "(a seeded subsample of 2500 in quick)")
-    from harness.props_ext import c11_ufunc
+    from harness.props_ext import c11_setitem, c11_ufunc
     probe_known(ctx)
+    t = time.time()
+    c11_setitem.search(ctx)
+    ctx.notes["seconds.setitem_scenarios"] = round(time.time() - t, 1)
     t = time.time()
     c11_ufunc.search(ctx)
     ctx.notes["seconds.ufunc_scenarios"] = round(time.time() - t, 1)
@@ -1359,5 +1392,6 @@ def run(ctx, replay=None):
     search(ctx)
     ctx.notes["seconds.histories"] = round(time.time() - t, 1)
     c11_ufunc.probes(ctx)  # last: failures found by the searches are reported first
+    c11_setitem.probes(ctx)
     if ctx.disagreements:
         targeted(ctx)
